@@ -48,6 +48,7 @@ type FuncContract struct {
 	Ghosts   []QVar // ghost parameters: arbitrary but fixed values the clauses may mention
 	Insts    map[string][]Expr // "callee.ghost" -> explicit instantiations at call sites in this function
 	OnReturn []*GhostSet       // ghost updates that take effect when the function returns
+	Keeps    []string          // free ghosts this function leaves unchanged (checked; callers keep them across the call)
 	OnSpawn  []*GhostSet       // ghost updates that take effect at a `go f(...)` statement naming this function
 	LockAssumes []*Clause      // assumed right after each lock acquisition in this function (listed as assumptions)
 	NoChan   bool // promises (and is checked) not to send/receive on any channel; otherwise callers lose all channel counters
@@ -78,6 +79,7 @@ type Pred struct {
 
 type GhostVar struct {
 	Name, Type, Pkg string
+	Free            bool // `ghost[free]`: outside every frame (not checked in `modifies`, unknown after any call of a repository function)
 }
 
 type LockSpec struct {
@@ -111,19 +113,20 @@ type Contracts struct {
 	Immut   map[string]map[string]bool // pkgpath -> "Type.field"
 	Ctors   map[string]bool            // display names of start-up functions that may write immutable fields
 	GhostGroups [][]string             // ghosts that always change together: naming one in `modifies` names all
+	ModSets  map[string][]string       // `modset name := items`: a named list of modifies items (may name other modsets)
 	ChanInvs map[string]*ChanInv       // pkgpath.Type.field -> invariant on every value sent into that channel
 	Files   []string
 }
 
 func newContracts() *Contracts {
-	return &Contracts{Externs: map[string]*FuncContract{}, Preds: map[string]*Pred{}, Ghosts: map[string]*GhostVar{}, Immut: map[string]map[string]bool{}, Ctors: map[string]bool{}, ChanInvs: map[string]*ChanInv{}}
+	return &Contracts{Externs: map[string]*FuncContract{}, Preds: map[string]*Pred{}, Ghosts: map[string]*GhostVar{}, Immut: map[string]map[string]bool{}, Ctors: map[string]bool{}, ChanInvs: map[string]*ChanInv{}, ModSets: map[string][]string{}}
 }
 
 var topKeywords = map[string]bool{"func": true, "extern": true, "pred": true, "ghost": true, "lock": true,
-	"lemma": true, "axiom": true, "benign": true, "fn": true, "immutable": true, "constructors": true, "ghostgroup": true, "chaninv": true}
+	"lemma": true, "axiom": true, "benign": true, "fn": true, "immutable": true, "constructors": true, "ghostgroup": true, "chaninv": true, "modset": true}
 var clauseKeywords = map[string]bool{"props": true, "arith": true, "requires": true, "ensures": true,
 	"modifies": true, "loop": true, "invariant": true, "decreases": true, "unroll": true, "trusted": true,
-	"maypanic": true, "guarantee": true, "guards": true, "ghostparam": true, "inst": true, "onreturn": true, "onspawn": true, "lockassume": true, "assume": true, "nochan": true}
+	"maypanic": true, "guarantee": true, "guards": true, "ghostparam": true, "inst": true, "onreturn": true, "onspawn": true, "lockassume": true, "assume": true, "nochan": true, "keeps": true}
 
 type logicalLine struct {
 	kw   string
@@ -351,10 +354,15 @@ func (cs *Contracts) loadFile(path, pkgPath string) error {
 					return fmt.Errorf("%s:%d: %v", path, l.line, err)
 				}
 				fc.Name = fc.Key
-				if other, dup := cs.Externs[fc.Key]; dup {
-					return fmt.Errorf("%s:%d: second extern contract for %s (first at %s:%d)", path, l.line, fc.Key, other.File, other.Line)
+				mapKey := fc.Key
+				if strings.HasPrefix(l.name, "in ") {
+					// extern[in <pkgpath>]: applies only to calls made from functions of that package
+					mapKey = fc.Key + "@" + strings.TrimSpace(strings.TrimPrefix(l.name, "in "))
 				}
-				cs.Externs[fc.Key] = fc
+				if other, dup := cs.Externs[mapKey]; dup {
+					return fmt.Errorf("%s:%d: second extern contract for %s (first at %s:%d)", path, l.line, mapKey, other.File, other.Line)
+				}
+				cs.Externs[mapKey] = fc
 			} else {
 				if err := parseSig(l.rest, fc); err != nil {
 					return fmt.Errorf("%s:%d: %v", path, l.line, err)
@@ -403,7 +411,10 @@ func (cs *Contracts) loadFile(path, pkgPath string) error {
 			if len(f) < 2 {
 				return fmt.Errorf("%s:%d: ghost name type", path, l.line)
 			}
-			cs.Ghosts[f[0]] = &GhostVar{Name: f[0], Type: strings.Join(f[1:], ""), Pkg: pkgPath}
+			if prev, dup := cs.Ghosts[f[0]]; dup && prev.Type != strings.Join(f[1:], "") {
+				return fmt.Errorf("%s:%d: ghost %s declared twice with different types", path, l.line, f[0])
+			}
+			cs.Ghosts[f[0]] = &GhostVar{Name: f[0], Type: strings.Join(f[1:], ""), Pkg: pkgPath, Free: l.name == "free"}
 		case "lock":
 			// lock Type.field guards a, b, c
 			f := strings.Fields(l.rest)
@@ -435,6 +446,23 @@ func (cs *Contracts) loadFile(path, pkgPath string) error {
 			}
 			curLemma = &Lemma{Name: ll.name, Clause: c, Axiom: l.kw == "axiom", OptIn: optin, Pkg: pkgPath}
 			cs.Lemmas = append(cs.Lemmas, curLemma)
+		case "modset":
+			// modset name := item, item, ...
+			i := strings.Index(l.rest, ":=")
+			if i < 0 {
+				return fmt.Errorf("%s:%d: modset name := items", path, l.line)
+			}
+			name := strings.TrimSpace(l.rest[:i])
+			if _, dup := cs.ModSets[name]; dup {
+				return fmt.Errorf("%s:%d: second modset %s", path, l.line, name)
+			}
+			var items []string
+			for _, m := range splitTopLevel(l.rest[i+2:], ',') {
+				if m = strings.TrimSpace(m); m != "" {
+					items = append(items, m)
+				}
+			}
+			cs.ModSets[name] = items
 		case "chaninv":
 			// chaninv Type.field(v) := expr
 			m := chanInvRe.FindStringSubmatch(l.rest)
@@ -456,6 +484,10 @@ func (cs *Contracts) loadFile(path, pkgPath string) error {
 				if b = strings.TrimSpace(b); b != "" {
 					g = append(g, b)
 				}
+			}
+			if l.name == "lead" && len(g) > 0 {
+				// ghostgroup[lead] a, b, c: only naming the FIRST ghost names the others
+				g = append([]string{"<lead>"}, g...)
 			}
 			cs.GhostGroups = append(cs.GhostGroups, g)
 		case "constructors":
@@ -583,6 +615,15 @@ func (cs *Contracts) loadFile(path, pkgPath string) error {
 				curFunc.Requires = append(curFunc.Requires, c)
 			} else {
 				curFunc.Ensures = append(curFunc.Ensures, c)
+			}
+		case "keeps":
+			if curFunc == nil {
+				return fmt.Errorf("%s:%d: keeps outside func", path, l.line)
+			}
+			for _, m := range splitTopLevel(l.rest, ',') {
+				if m = strings.TrimSpace(m); m != "" {
+					curFunc.Keeps = append(curFunc.Keeps, m)
+				}
 			}
 		case "modifies":
 			if curFunc == nil {
@@ -727,4 +768,61 @@ func usesEnd(l string) int {
 		}
 	}
 	return -1
+}
+
+// expandModSets replaces modset names in every modifies list by their items (recursively).
+func (cs *Contracts) expandModSets() error {
+	var expand func(items []string, depth int) ([]string, error)
+	expand = func(items []string, depth int) ([]string, error) {
+		if depth > 8 {
+			return nil, fmt.Errorf("modset nesting too deep (cycle?)")
+		}
+		var out []string
+		for _, it := range items {
+			if sub, ok := cs.ModSets[it]; ok {
+				e, err := expand(sub, depth+1)
+				if err != nil {
+					return nil, err
+				}
+				out = append(out, e...)
+			} else {
+				out = append(out, it)
+			}
+		}
+		return out, nil
+	}
+	fix := func(fc *FuncContract) error {
+		if len(fc.Modifies) == 0 {
+			return nil
+		}
+		e, err := expand(fc.Modifies, 0)
+		if err != nil {
+			return fmt.Errorf("%s:%d: %v", fc.File, fc.Line, err)
+		}
+		fc.Modifies = e
+		return nil
+	}
+	for _, fc := range cs.Funcs {
+		if err := fix(fc); err != nil {
+			return err
+		}
+	}
+	for _, fc := range cs.Externs {
+		if err := fix(fc); err != nil {
+			return err
+		}
+	}
+	return nil
+}
+
+// lookupExtern: the extern contract for a call of `key` made from a function of package callerPkg
+// (a scoped `extern[in pkg]` wins over the unscoped one). Returns the map key used.
+func (cs *Contracts) lookupExtern(key, callerPkg string) (*FuncContract, string) {
+	if fc, ok := cs.Externs[key+"@"+callerPkg]; ok {
+		return fc, key + "@" + callerPkg
+	}
+	if fc, ok := cs.Externs[key]; ok {
+		return fc, key
+	}
+	return nil, ""
 }
